@@ -162,38 +162,39 @@ def escape (s : List Char) : List Char := escapeWith stringEscapeMode s
 def simpleEscape (k : Char) : Option Char :=
   (escapeParseArms.find? (fun p => p.1 == k.toNat)).map (fun p => Char.ofNat p.2)
 
-/-- `character()`: one (possibly escaped) character of a string literal.  `fuel` bounds the
+/-- the `"\\x" i:character() i2:character() {? hex::decode … }` alternative after `\x` -/
+def hexEscape (rec : List Char → Option (Char × List Char)) (r' : List Char) : Option (Char × List Char) :=
+  match rec r' with
+  | some (i, r1) =>
+    match rec r1 with
+    | some (i2, r2) =>
+      match hexVal i, hexVal i2 with
+      | some x, some y => some (Char.ofNat (x * 16 + y), r2)
+      | _, _ => none
+    | none => none
+  | none => none
+
+/-- ordered choice of `character()` on `c :: r`; `rec` reads the nested characters of `\x` -/
+def charStep (rec : List Char → Option (Char × List Char)) (c : Char) (r : List Char) : Option (Char × List Char) :=
+  if c = '\\' then
+    match r with
+    | [] => some ('\\', [])
+    | k :: r' =>
+      match simpleEscape k with
+      | some e => some (e, r')
+      | none =>
+        match (if k = 'x' then hexEscape rec r' else none) with
+        | some res => some res
+        | none => some ('\\', r)      -- `[^ '"']` takes the backslash itself
+  else if c = '"' then none
+  else some (c, r)
+
+/-- `character()`: one (possibly escaped) character of a string literal.  The fuel bounds the
 nesting of `\x` (whose two digits are themselves `character()`s). -/
 def character : Nat → List Char → Option (Char × List Char)
   | _, [] => none
-  | fuel, c :: r =>
-    if c = '\\' then
-      match r with
-      | [] => some ('\\', [])
-      | k :: r' =>
-        match simpleEscape k with
-        | some e => some (e, r')
-        | none =>
-          let hexAlt : Option (Char × List Char) :=
-            if k = 'x' then
-              match fuel with
-              | 0 => none
-              | f + 1 =>
-                match character f r' with
-                | some (i, r1) =>
-                  match character f r1 with
-                  | some (i2, r2) =>
-                    match hexVal i, hexVal i2 with
-                    | some x, some y => some (Char.ofNat (x * 16 + y), r2)
-                    | _, _ => none
-                  | none => none
-                | none => none
-            else none
-          match hexAlt with
-          | some res => some res
-          | none => some ('\\', r)      -- `[^ '"']` takes the backslash itself
-    else if c = '"' then none
-    else some (c, r)
+  | 0, c :: r => charStep (fun _ => none) c r
+  | fuel + 1, c :: r => charStep (character fuel) c r
 
 /-- `character()* "\""` after the opening quote: decoded string and what follows the closing quote -/
 def unescapeQ : Nat → List Char → Option (List Char × List Char)
